@@ -23,7 +23,7 @@ from dask_array._core_utils import _calculate_new_chunksizes
 from dask_array._numpy_compat import normalize_axis_tuple
 from dask_array._utils import compute_meta, meta_from_array, validate_axis
 from dask.layers import ArrayOverlapLayer
-from dask.utils import derived_from, ensure_dict
+from dask.utils import derived_from, ensure_dict, has_keyword
 
 
 def _overlap_internal_chunks(original_chunks, axes):
@@ -269,6 +269,11 @@ class MapOverlap(ArrayExpr):
             return None
         # This rewrite currently tracks one depth spec while slicing every input.
         if len(self.arrays) != 1:
+            return None
+        # A function that is told where its block sits (gradient's kernel picks
+        # its coordinates by ``block_id``) would see the positions of the
+        # sliced input instead.
+        if has_keyword(self.func, "block_id") or has_keyword(self.func, "block_info"):
             return None
 
         # Pad index to full length
